@@ -317,8 +317,12 @@ def run(repo, chk):
     chk.expect(remap == {"gt": "Comparison.ge", "lt": "Comparison.le"}, "R-C06-4", "strict tank-level relations are treated as inclusive (a level exactly at the limit triggers)", loc(tl), found=remap)
     lastv = [s for s in tl.body if isinstance(s, ast.Assign) and unparse(s.targets[0]) == "self._last_value"]
     chk.expect(len(lastv) == 1 and unparse(lastv[0].value) == "cur_value", "R-C06-4", "the crossing detector's last value is updated on every evaluation (top-level statement)", loc(tl))
-    guard = [n for n in walk(tl) if isinstance(n, ast.If) and re.sub(r"[\s()]", "", unparse(n.test)).startswith("stateandnotrelation") and "_last_value" in unparse(n.test)]
-    chk.expect(len(guard) == 1, "R-C06-4", "a partial step is computed only when the condition became true since the last evaluation (so (level - threshold)/inflow >= 0)", loc(tl))
+    # crossing guard: `state and not relation(<value at the last accepted step>, threshold)`; which variable carries that value is C05's R-C05-6
+    guard = [n for n in walk(tl) if isinstance(n, ast.If) and isinstance(n.test, ast.BoolOp) and isinstance(n.test.op, ast.And) and len(n.test.values) == 2
+             and unparse(n.test.values[0]) == "state" and isinstance(n.test.values[1], ast.UnaryOp) and isinstance(n.test.values[1].op, ast.Not)
+             and isinstance(n.test.values[1].operand, ast.Call) and unparse(n.test.values[1].operand.func) == "relation"
+             and "thresh_value" in unparse(n.test.values[1].operand.args[1])]
+    chk.expect(len(guard) == 1, "R-C06-4", "a partial step is computed only when the condition became true since the last accepted step (so (level - threshold)/inflow >= 0)", loc(tl))
 
 
 WITNESSES = [
